@@ -2008,3 +2008,100 @@ impl PartialEq for ExpectedUtility {
     }
 }"""),
 ]
+
+# ------------------------------------------------------------------ round 8: TR, CN container, VO stores, RN3 path order, facts through helpers
+SEMB = "src/builder/sdd/semantic.rs"
+CASES += [
+    dict(name="tr-memoised-hash-truncated-to-u64", file=RB, rule="TR", props=["C10"], expect="cached_semantic_hash:TR:field-as-u64",
+         old="""        *(self.semantic_hash.borrow_mut()) = Some(h.value());""",
+         new="""        *(self.semantic_hash.borrow_mut()) = Some((h.value() as u64) as u128);"""),
+    dict(name="tr-widening-and-same-width-casts-ok", file=RB, rule="TR", props=["C10", "C12"], expect=None,
+         old="""        *(self.semantic_hash.borrow_mut()) = Some(h.value());""",
+         new="""        *(self.semantic_hash.borrow_mut()) = Some((h.value() as u128) + ((self.var.value() as usize) as u128) * 0);"""),
+    dict(name="cn-clause-collected-by-variable", file="src/repr/cnf.rs", rule="CN", props=["C17", "C15"], expect="from_dimacs:clause-as-variable-map",
+         old="""            let mut lit_vec: Vec<Literal> = Vec::new();
+            for l in itm.lits().iter() {
+                let b = match l.sign() {
+                    Sign::Neg => false,
+                    Sign::Pos => true,
+                };
+                // subtract 1, we are 0-indexed
+                let lbl = VarLabel::new(l.var().to_u64() - 1);
+                m = max(l.var().to_u64() as usize, m);
+                lit_vec.push(Literal::new(lbl, b));
+            }
+            clause_vec.push(lit_vec);""",
+         new="""            let mut by_var: std::collections::BTreeMap<VarLabel, bool> = std::collections::BTreeMap::new();
+            for l in itm.lits().iter() {
+                let b = match l.sign() {
+                    Sign::Neg => false,
+                    Sign::Pos => true,
+                };
+                m = max(l.var().to_u64() as usize, m);
+                by_var.insert(VarLabel::new(l.var().to_u64() - 1), b);
+            }
+            clause_vec.push(by_var.into_iter().map(|(v, b)| Literal::new(v, b)).collect());"""),
+    dict(name="cn-clause-collected-by-literal-ok", file="src/repr/cnf.rs", rule="CN", props=["C17", "C15"], expect=None,
+         old="""            let mut lit_vec: Vec<Literal> = Vec::new();
+            for l in itm.lits().iter() {
+                let b = match l.sign() {
+                    Sign::Neg => false,
+                    Sign::Pos => true,
+                };
+                // subtract 1, we are 0-indexed
+                let lbl = VarLabel::new(l.var().to_u64() - 1);
+                m = max(l.var().to_u64() as usize, m);
+                lit_vec.push(Literal::new(lbl, b));
+            }
+            clause_vec.push(lit_vec);""",
+         new="""            let mut seen: std::collections::BTreeSet<Literal> = std::collections::BTreeSet::new();
+            for l in itm.lits().iter() {
+                let b = match l.sign() {
+                    Sign::Neg => false,
+                    Sign::Pos => true,
+                };
+                m = max(l.var().to_u64() as usize, m);
+                seen.insert(Literal::new(VarLabel::new(l.var().to_u64() - 1), b));
+            }
+            clause_vec.push(seen.into_iter().collect());"""),
+    dict(name="vo-new-stores-pos-to-var-swapped", file="src/repr/var_order.rs", rule="VO", props=["C14", "C08", "C01"], expect="VarOrder::new:inverse-by-construction",
+         old="""        let mut v = vec![0; order.len()];
+        let mut pos_to_var = Vec::new();
+        for i in 0..order.len() {
+            v[order[i].value() as usize] = i;
+            pos_to_var.push(order[i].value() as usize);
+        }""",
+         new="""        let mut v = vec![0; order.len()];
+        let mut pos_to_var = vec![0; order.len()];
+        for (pos, var) in order.iter().enumerate() {
+            let var = var.value_usize();
+            v[var] = pos;
+            pos_to_var[var] = pos;
+        }"""),
+    dict(name="vo-new-stores-both-tables-ok", file="src/repr/var_order.rs", rule="VO", props=["C14", "C08", "C01"], expect=None,
+         old="""        let mut v = vec![0; order.len()];
+        let mut pos_to_var = Vec::new();
+        for i in 0..order.len() {
+            v[order[i].value() as usize] = i;
+            pos_to_var.push(order[i].value() as usize);
+        }""",
+         new="""        let mut v = vec![0; order.len()];
+        let mut pos_to_var = vec![0; order.len()];
+        for (pos, var) in order.iter().enumerate() {
+            let var = var.value_usize();
+            v[var] = pos;
+            pos_to_var[pos] = var;
+        }"""),
+    dict(name="rn3-order-compressed-list-interned-untrimmed", file="src/builder/sdd/compression.rs", rule="RN", props=["C04"], expect="canonicalize:RN3:order",
+         old="""            // check for a base case after compression (compression can sometimes
+            // reduce node counts to a base case)
+            if let Some(sdd) = self.canonicalize_base_case(&node) {
+                return sdd;
+            }
+        }""",
+         new="""        }"""),
+    dict(name="rn3-sign-test-through-predicate-helper-ok", file=SB, rule="RN", props=["C04"], expect=None,
+         old="""        if bdd.high().is_neg() || self.is_false(bdd.high()) || bdd.high().is_neg_var() {""",
+         new="""        let stored_negated = |x: SddPtr<'a>| x.is_neg() || self.is_false(x) || x.is_neg_var();
+        if stored_negated(bdd.high()) {"""),
+]
